@@ -23,9 +23,43 @@ const IMPORTS: &str = "From Verif Require Import Lib.Obs Model.Health.";
 type StdError = Box<dyn std::error::Error + Send + Sync + 'static>;
 
 // ------------------------------------------------------------------ operations and outputs
+/// The documented typed API: `set_serving::<S>()` / `set_not_serving::<S>()` are keyed by
+/// `<S as NamedService>::NAME`.  Two dummy services whose names differ only in case, and the real
+/// `HealthServer`.
+struct SvcA;
+impl tonic::server::NamedService for SvcA {
+    const NAME: &'static str = "a";
+}
+struct SvcCapA;
+impl tonic::server::NamedService for SvcCapA {
+    const NAME: &'static str = "A";
+}
+type RealHealth = tonic_health::pb::health_server::HealthServer<tonic_health::server::HealthService>;
+const N_TYPES: usize = 3;
+fn type_name(i: usize) -> &'static str {
+    use tonic::server::NamedService;
+    match i {
+        0 => <SvcA as NamedService>::NAME,
+        1 => <SvcCapA as NamedService>::NAME,
+        _ => <RealHealth as NamedService>::NAME,
+    }
+}
+async fn set_typed(r: &tonic_health::server::HealthReporter, i: usize, serving: bool) {
+    match (i, serving) {
+        (0, true) => r.set_serving::<SvcA>().await,
+        (0, false) => r.set_not_serving::<SvcA>().await,
+        (1, true) => r.set_serving::<SvcCapA>().await,
+        (1, false) => r.set_not_serving::<SvcCapA>().await,
+        (_, true) => r.set_serving::<RealHealth>().await,
+        (_, false) => r.set_not_serving::<RealHealth>().await,
+    }
+}
+
 #[derive(Clone, Debug, PartialEq, Eq)]
 enum Op {
     Set(String, u8), // status: 0 Unknown, 1 Serving, 2 NotServing (wire numbers)
+    SetServing(usize),    // set_serving::<type i>()
+    SetNotServing(usize), // set_not_serving::<type i>()
     Clear(String),
     Check(String),
     Watch(String),
@@ -63,6 +97,8 @@ impl Op {
     fn coq(&self) -> String {
         match self {
             Op::Set(n, v) => format!("SetS {} {}", coq_bytes(n.as_bytes()), status_coq(*v)),
+            Op::SetServing(i) => format!("SetServing {}", coq_bytes(type_name(*i).as_bytes())),
+            Op::SetNotServing(i) => format!("SetNotServing {}", coq_bytes(type_name(*i).as_bytes())),
             Op::Clear(n) => format!("Clear {}", coq_bytes(n.as_bytes())),
             Op::Check(n) => format!("Check {}", coq_bytes(n.as_bytes())),
             Op::Watch(n) => format!("Watch {}", coq_bytes(n.as_bytes())),
@@ -72,6 +108,8 @@ impl Op {
     fn json(&self) -> Value {
         match self {
             Op::Set(n, v) => json!(["set", n, v]),
+            Op::SetServing(i) => json!(["set_serving", i, type_name(*i)]),
+            Op::SetNotServing(i) => json!(["set_not_serving", i, type_name(*i)]),
             Op::Clear(n) => json!(["clear", n]),
             Op::Check(n) => json!(["check", n]),
             Op::Watch(n) => json!(["watch", n]),
@@ -82,10 +120,28 @@ impl Op {
         let s = |i: usize| v[i].as_str().unwrap_or("").to_string();
         match v[0].as_str().unwrap_or("") {
             "set" => Op::Set(s(1), v[2].as_u64().unwrap_or(0) as u8),
+            "set_serving" => Op::SetServing(v[1].as_u64().unwrap_or(0) as usize),
+            "set_not_serving" => Op::SetNotServing(v[1].as_u64().unwrap_or(0) as usize),
             "clear" => Op::Clear(s(1)),
             "check" => Op::Check(s(1)),
             "watch" => Op::Watch(s(1)),
             _ => Op::Next(v[1].as_u64().unwrap_or(0) as usize),
+        }
+    }
+}
+impl Op {
+    /// what the operation means for the specification (the oracle's plain map)
+    fn spec(&self) -> Op {
+        match self {
+            Op::SetServing(i) => Op::Set(type_name(*i).to_string(), 1),
+            Op::SetNotServing(i) => Op::Set(type_name(*i).to_string(), 2),
+            o => o.clone(),
+        }
+    }
+    fn name(&self) -> Option<String> {
+        match self.spec() {
+            Op::Set(n, _) | Op::Clear(n) | Op::Check(n) | Op::Watch(n) => Some(n),
+            _ => None,
         }
     }
 }
@@ -135,6 +191,14 @@ where
     for op in ops {
         let o = catch(AssertUnwindSafe(|| match op {
             Op::Set(n, v) => match spin(reporter.set_service_status(n.as_str(), status_of(*v)), 1000) {
+                Ok(()) => Obs::Unit,
+                Err(()) => Obs::Other(HANG),
+            },
+            Op::SetServing(i) => match spin(set_typed(&reporter, *i, true), 1000) {
+                Ok(()) => Obs::Unit,
+                Err(()) => Obs::Other(HANG),
+            },
+            Op::SetNotServing(i) => match spin(set_typed(&reporter, *i, false), 1000) {
                 Ok(()) => Obs::Unit,
                 Err(()) => Obs::Other(HANG),
             },
@@ -191,6 +255,7 @@ fn oracle(ops: &[Op], outs: &[Obs]) -> Option<String> {
     if ops.len() != outs.len() {
         return Some("output count".into());
     }
+    let ops: Vec<Op> = ops.iter().map(|o| o.spec()).collect();
     for (i, (op, out)) in ops.iter().zip(outs).enumerate() {
         if *out == Obs::Panic {
             return Some(format!("op {} {:?} panicked", i, op));
@@ -217,6 +282,7 @@ fn oracle(ops: &[Op], outs: &[Obs]) -> Option<String> {
                     return Some(format!("op {} clear returned {:?}", i, out));
                 }
             }
+            Op::SetServing(_) | Op::SetNotServing(_) => unreachable!(),
             Op::Check(n) => {
                 let want = match map.get(n) {
                     Some(v) => Obs::Status(*v),
@@ -307,6 +373,7 @@ fn oracle_settled(ops: &[Op], outs: &[Obs]) -> Option<String> {
     let mut map: HashMap<String, i32> = HashMap::new();
     map.insert(String::new(), 1);
     let mut ws: Vec<(String, i32, bool, Option<i32>, Option<Obs>)> = vec![]; // name, latest, cleared, last report, last out
+    let ops: Vec<Op> = ops.iter().map(|o| o.spec()).collect();
     for (op, out) in ops.iter().zip(outs) {
         match op {
             Op::Set(n, v) => {
@@ -334,7 +401,7 @@ fn oracle_settled(ops: &[Op], outs: &[Obs]) -> Option<String> {
                     w.4 = Some(out.clone());
                 }
             }
-            Op::Check(_) => {}
+            Op::Check(_) | Op::SetServing(_) | Op::SetNotServing(_) => {}
         }
     }
     for (k, w) in ws.iter().enumerate() {
@@ -370,7 +437,7 @@ fn push_case(out: &mut Out, kind: &str, ops: Vec<Op>, settled: bool) {
     out.hist("watch reports per history", match n_items { 0 => "0", 1 => "1", 2..=3 => "2-3", 4..=7 => "4-7", _ => "8+" });
     out.hist("ended streams per history", n_end.min(3));
     out.hist("names used", {
-        let mut s: Vec<&str> = ops.iter().filter_map(|o| match o { Op::Set(n, _) | Op::Clear(n) | Op::Check(n) | Op::Watch(n) => Some(n.as_str()), _ => None }).collect();
+        let mut s: Vec<String> = ops.iter().filter_map(|o| o.name()).collect();
         s.sort();
         s.dedup();
         s.len()
@@ -386,13 +453,43 @@ fn push_case(out: &mut Out, kind: &str, ops: Vec<Op>, settled: bool) {
 }
 
 // ------------------------------------------------------------------ generators
-fn gen_history(r: &mut Rng, names: &[&str], len: usize) -> Vec<Op> {
+/// Groups of names that a normalising implementation (case folding, trimming, path or unicode
+/// normalisation, truncation) would confuse; every random history draws its names from one group.
+fn name_clusters() -> Vec<Vec<String>> {
+    let long = "x".repeat(300);
+    let v = |xs: &[&str]| xs.iter().map(|x| x.to_string()).collect::<Vec<_>>();
+    vec![
+        v(&["a"]),
+        v(&["", "a"]),
+        v(&["", "a", "b"]),
+        v(&["a", "A"]),
+        v(&["a", "a ", " a"]),
+        v(&["", " "]),
+        v(&["a", "/a", "a/"]),
+        v(&["ab", "a.b", "a"]),
+        v(&["a", "\u{e4}", "\u{c4}"]),            // a-umlaut, A-umlaut
+        v(&["\u{e9}", "e\u{301}"]),               // composed / decomposed e-acute
+        v(&["a", "a\u{0}"]),
+        v(&["a", "\u{ff41}", "\u{430}"]),         // fullwidth a, cyrillic a
+        vec![long.clone(), format!("{}y", long), long[..299].to_string()],
+        v(&["grpc.health.v1.Health", "grpc.health.v1.health", ""]),
+        v(&["a", "A", "grpc.health.v1.Health"]),
+    ]
+}
+
+fn gen_history(r: &mut Rng, names: &[String], len: usize) -> Vec<Op> {
     let mut ops = vec![];
     let mut watches = 0usize; // upper bound of allocated streams (some watches fail)
+    let typed_in: Vec<usize> = (0..N_TYPES).filter(|i| names.iter().any(|n| n == type_name(*i))).collect();
     for _ in 0..len {
         let n = r.pick(names).to_string();
         let op = match r.below(100) {
-            0..=29 => Op::Set(n, r.below(3) as u8),
+            0..=21 => Op::Set(n, r.below(3) as u8),
+            22..=29 => {
+                // the typed API; mostly a type whose NAME is one of the history's names
+                let i = if !typed_in.is_empty() && r.chance(4, 5) { *r.pick(&typed_in) } else { r.below(N_TYPES as u64) as usize };
+                if r.chance(1, 2) { Op::SetServing(i) } else { Op::SetNotServing(i) }
+            }
             30..=39 => Op::Clear(n),
             40..=54 => Op::Check(n),
             55..=69 => {
@@ -413,10 +510,18 @@ fn gen_history(r: &mut Rng, names: &[&str], len: usize) -> Vec<Op> {
 }
 
 fn all_ops(names: &[&str], statuses: &[u8], max_w: usize) -> Vec<Op> {
+    all_ops_typed(names, statuses, max_w, false)
+}
+/// `typed`: the name "a" is set through set_serving::<SvcA>() / set_not_serving::<SvcA>()
+fn all_ops_typed(names: &[&str], statuses: &[u8], max_w: usize, typed: bool) -> Vec<Op> {
     let mut v = vec![];
     for n in names {
         for s in statuses {
-            v.push(Op::Set(n.to_string(), *s));
+            match (typed && *n == type_name(0), *s) {
+                (true, 1) => v.push(Op::SetServing(0)),
+                (true, 2) => v.push(Op::SetNotServing(0)),
+                _ => v.push(Op::Set(n.to_string(), *s)),
+            }
         }
         v.push(Op::Clear(n.to_string()));
         v.push(Op::Check(n.to_string()));
@@ -469,6 +574,9 @@ fn corpus() -> Vec<(&'static str, Vec<Op>)> {
         // a service registered again gets a new channel: old streams stay ended, see nothing of it
         ("corpus.reregister", vec![Set(s("a"), 1), Watch(s("a")), Next(0), Clear(s("a")), Set(s("a"), 2), Watch(s("a")), Next(0), Next(0), Next(1), Next(1), Set(s("a"), 0), Next(0), Next(1)]),
         ("corpus.two-watchers-two-names", vec![Set(s("a"), 1), Set(s("b"), 2), Watch(s("a")), Watch(s("b")), Watch(s("a")), Set(s("a"), 0), Next(0), Next(1), Next(2), Next(0), Next(1), Next(2), Clear(s("b")), Next(1), Next(0)]),
+        // the typed API is keyed by NamedService::NAME, exactly (names differing in case are different)
+        ("corpus.typed-setters", vec![SetServing(0), Check(s("a")), Check(s("A")), SetNotServing(1), Check(s("A")), Check(s("a")), SetNotServing(2), Check(s("grpc.health.v1.Health")), Check(s("grpc.health.v1.health")), Watch(s("a")), SetNotServing(0), Next(0), Next(0), SetServing(0), SetServing(0), Next(0), Clear(s("A")), Next(0), Check(s("a")), Check(s("A")), Clear(s("a")), SetServing(1), Check(s("A")), Check(s("a")), Watch(s("a")), Watch(s("A")), Next(1)]),
+        ("corpus.confusable-names", vec![Set(s("a"), 1), Check(s("A")), Check(s("a ")), Check(s(" a")), Check(s("/a")), Check(s("a\u{0}")), Watch(s("A")), Set(s("A"), 2), Check(s("a")), Watch(s("A")), Set(s("a"), 0), Next(0), Next(0), Clear(s("a ")), Check(s("a")), Clear(s("a")), Check(s("A")), Next(0), Check(s("\u{e4}")), Set(s("\u{e4}"), 1), Check(s("\u{c4}")), Check(s("a"))]),
         ("corpus.no-such-stream", vec![Next(0), Watch(s("zz")), Next(0), Watch(s("")), Next(1), Next(0)]),
     ]
 }
@@ -596,14 +704,17 @@ fn stress(seed: u64, round: u64) -> Result<Value, String> {
 static DONE: std::sync::atomic::AtomicU64 = std::sync::atomic::AtomicU64::new(0);
 
 // ------------------------------------------------------------------ deterministic interleavings
-// Operation A runs in a spawned task of a current-thread runtime after burning `k` units of
-// tokio's cooperative budget: when the budget runs out inside one of A's lock acquisitions the
-// acquisition returns Pending, i.e. the task is switched out exactly there.  While A is parked
-// the main task runs the sequence B; then A finishes, every stream is polled to quiescence and
-// the service is checked.  The outcome must be linearizable: equal to what SOME sequential
-// history with A atomic (before B, between two operations of B, after B) allows.
+// Operation A and the sequence B run in two spawned tasks of a current-thread runtime.  Each
+// first burns some units of tokio's cooperative budget (k for A, j for B): when a task's budget
+// runs out inside a lock acquisition (or a stream poll) that call returns Pending, i.e. the task
+// is switched out exactly there and the other one runs.  So A is parked at each of its
+// acquisitions in turn and resumes between (or inside) the operations of B, depending on (k, j).
+// Afterwards every stream is polled to quiescence and the service is checked.  The outcome must
+// be linearizable: what SOME sequential history with A atomic allows (A before B, between two
+// operations of B, after B - restricted by real time: A precedes every operation of B that
+// started after A had finished).
 //
-// In a scenario `Op::Next(j)` means "the stream opened by the j-th Watch of the main task"
+// In a scenario `Op::Next(j)` means "the stream opened by the j-th Watch of the prefix / B"
 // (whether or not that Watch succeeded); A's own stream, if A is a Watch, is the last slot.
 #[derive(Clone)]
 struct Scenario {
@@ -617,20 +728,12 @@ struct Observed {
     main: Vec<Obs>,   // prefix ++ b, Watch results carry the slot number
     a: Obs,           // Watch(slot) if A is a successful Watch
     settle: Vec<Obs>, // SETTLE_POLLS polls per slot, then Check of every name used and of ""
-    parked: bool,     // A was still unfinished when B started
+    a_done_before: Vec<bool>, // per operation of B: had A finished when it started
     a_polls: usize,
+    b_polls: usize,
 }
 fn scenario_names(sc: &Scenario) -> Vec<String> {
-    let mut v: Vec<String> = sc
-        .prefix
-        .iter()
-        .chain(std::iter::once(&sc.a))
-        .chain(sc.b.iter())
-        .filter_map(|o| match o {
-            Op::Set(n, _) | Op::Clear(n) | Op::Check(n) | Op::Watch(n) => Some(n.clone()),
-            Op::Next(_) => None,
-        })
-        .collect();
+    let mut v: Vec<String> = sc.prefix.iter().chain(std::iter::once(&sc.a)).chain(sc.b.iter()).filter_map(|o| o.name()).collect();
     v.push(String::new());
     v.sort();
     v.dedup();
@@ -657,6 +760,11 @@ impl<F: std::future::Future> std::future::Future for Counted<F> {
         r
     }
 }
+fn counted<F: std::future::Future>(fut: F) -> (Counted<F>, std::sync::Arc<std::sync::atomic::AtomicUsize>, std::sync::Arc<std::sync::atomic::AtomicBool>) {
+    let polls = std::sync::Arc::new(std::sync::atomic::AtomicUsize::new(0));
+    let done = std::sync::Arc::new(std::sync::atomic::AtomicBool::new(false));
+    (Counted { fut: Box::pin(fut), polls: polls.clone(), done: done.clone() }, polls, done)
+}
 
 async fn main_op<T>(
     reporter: &mut tonic_health::server::HealthReporter,
@@ -673,6 +781,14 @@ where
     match op {
         Op::Set(n, v) => {
             reporter.set_service_status(n.as_str(), status_of(*v)).await;
+            Obs::Unit
+        }
+        Op::SetServing(i) => {
+            set_typed(reporter, *i, true).await;
+            Obs::Unit
+        }
+        Op::SetNotServing(i) => {
+            set_typed(reporter, *i, false).await;
             Obs::Unit
         }
         Op::Clear(n) => {
@@ -694,21 +810,30 @@ where
                 if st.code() == tonic::Code::NotFound { Obs::NotFound } else { Obs::Other(st.code() as i32 as u32) }
             }
         },
+        // a poll by hand must not be answered "Pending" merely because the polling task's
+        // cooperative budget is used up (tokio would re-wake an awaiting consumer at once)
         Op::Next(j) => match slots.get_mut(*j) {
-            Some(Some(s)) => poll_once(s),
+            Some(Some(s)) => tokio::task::coop::unconstrained(std::future::poll_fn(|_| Poll::Ready(poll_once(s)))).await,
             _ => Obs::NoWatcher,
         },
     }
 }
-
-fn run_interleaved(sc: &Scenario, k: usize) -> Result<Observed, String> {
-    use std::sync::atomic::{AtomicBool, AtomicUsize, Ordering::SeqCst};
-    use std::sync::Arc;
-    let rt = tokio::runtime::Builder::new_current_thread()
+async fn burn(n: usize) {
+    for _ in 0..n {
+        tokio::task::coop::consume_budget().await;
+    }
+}
+fn turn_runtime() -> Result<tokio::runtime::Runtime, String> {
+    tokio::runtime::Builder::new_current_thread()
         .event_interval(1) // the block_on future gets its turn after every single task poll
         .enable_time()
         .build()
-        .map_err(|e| e.to_string())?;
+        .map_err(|e| e.to_string())
+}
+
+fn run_interleaved(sc: &Scenario, k: usize, j: usize) -> Result<Observed, String> {
+    use std::sync::atomic::Ordering::SeqCst;
+    let rt = turn_runtime()?;
     let sc = sc.clone();
     rt.block_on(async move {
         let body = async {
@@ -719,46 +844,33 @@ fn run_interleaved(sc: &Scenario, k: usize) -> Result<Observed, String> {
             for op in &sc.prefix {
                 main.push(main_op(&mut reporter, &mut client, &mut slots, op).await);
             }
-            let polls = Arc::new(AtomicUsize::new(0));
-            let done = Arc::new(AtomicBool::new(false));
+            // task A
             let mut rep_a = reporter.clone();
             let mut client_a = HealthClient::new(server.clone());
             let a = sc.a.clone();
-            let fut = async move {
-                for _ in 0..k {
-                    tokio::task::coop::consume_budget().await;
+            let (fut_a, a_polls, a_done) = counted(async move {
+                burn(k).await;
+                let mut own = vec![];
+                let o = main_op(&mut rep_a, &mut client_a, &mut own, &a).await;
+                (o, own.pop().flatten())
+            });
+            let ha = tokio::spawn(fut_a);
+            // task B: owns the reporter, the client and the streams opened so far
+            let b = sc.b.clone();
+            let a_done_b = a_done.clone();
+            let (fut_b, b_polls, _b_done) = counted(async move {
+                burn(j).await;
+                let (mut outs, mut before) = (vec![], vec![]);
+                for op in &b {
+                    before.push(a_done_b.load(SeqCst));
+                    outs.push(main_op(&mut reporter, &mut client, &mut slots, op).await);
                 }
-                match a {
-                    Op::Set(n, v) => {
-                        rep_a.set_service_status(n.as_str(), status_of(v)).await;
-                        (Obs::Unit, None)
-                    }
-                    Op::Clear(n) => {
-                        rep_a.clear_service_status(n.as_str()).await;
-                        (Obs::Unit, None)
-                    }
-                    Op::Check(n) => match client_a.check(req(&n)).await {
-                        Ok(r) => (Obs::Status(r.into_inner().status), None),
-                        Err(st) if st.code() == tonic::Code::NotFound => (Obs::NotFound, None),
-                        Err(st) => (Obs::Other(st.code() as i32 as u32), None),
-                    },
-                    Op::Watch(n) => match client_a.watch(req(&n)).await {
-                        Ok(r) => (Obs::Watch(0), Some(r.into_inner())),
-                        Err(st) if st.code() == tonic::Code::NotFound => (Obs::NotFound, None),
-                        Err(st) => (Obs::Other(st.code() as i32 as u32), None),
-                    },
-                    Op::Next(_) => (Obs::NoWatcher, None),
-                }
-            };
-            let handle = tokio::spawn(Counted { fut: Box::pin(fut), polls: polls.clone(), done: done.clone() });
-            while polls.load(SeqCst) == 0 {
-                tokio::task::yield_now().await;
-            }
-            let parked = !done.load(SeqCst);
-            for op in &sc.b {
-                main.push(main_op(&mut reporter, &mut client, &mut slots, op).await);
-            }
-            let (mut a_out, a_stream) = handle.await.map_err(|e| format!("operation A panicked: {}", e))?;
+                (outs, before, reporter, client, slots)
+            });
+            let hb = tokio::spawn(fut_b);
+            let (mut a_out, a_stream) = ha.await.map_err(|e| format!("operation A panicked: {}", e))?;
+            let (b_outs, a_done_before, mut reporter, mut client, mut slots) = hb.await.map_err(|e| format!("sequence B panicked: {}", e))?;
+            main.extend(b_outs);
             if matches!(sc.a, Op::Watch(_)) {
                 slots.push(a_stream);
                 if let Obs::Watch(_) = a_out {
@@ -766,15 +878,15 @@ fn run_interleaved(sc: &Scenario, k: usize) -> Result<Observed, String> {
                 }
             }
             let mut settle = vec![];
-            for j in 0..slots.len() {
+            for s in 0..slots.len() {
                 for _ in 0..SETTLE_POLLS {
-                    settle.push(main_op(&mut reporter, &mut client, &mut slots, &Op::Next(j)).await);
+                    settle.push(main_op(&mut reporter, &mut client, &mut slots, &Op::Next(s)).await);
                 }
             }
             for n in scenario_names(&sc) {
                 settle.push(main_op(&mut reporter, &mut client, &mut slots, &Op::Check(n)).await);
             }
-            Ok::<Observed, String>(Observed { main, a: a_out, settle, parked, a_polls: polls.load(SeqCst) })
+            Ok::<Observed, String>(Observed { main, a: a_out, settle, a_done_before, a_polls: a_polls.load(SeqCst), b_polls: b_polls.load(SeqCst) })
         };
         match tokio::time::timeout(std::time::Duration::from_secs(10), body).await {
             Ok(r) => r,
@@ -851,7 +963,7 @@ fn lin_tr(o: &Obs) -> Tr {
 
 /// safety facts that hold for every schedule, whatever the linearization
 fn hard_facts(sc: &Scenario, o: &Observed) -> Option<String> {
-    let all: Vec<&Op> = sc.prefix.iter().chain(std::iter::once(&sc.a)).chain(sc.b.iter()).collect();
+    let all: Vec<Op> = sc.prefix.iter().chain(std::iter::once(&sc.a)).chain(sc.b.iter()).map(|x| x.spec()).collect();
     // name watched by each slot
     let mut slot_name: Vec<String> = sc.prefix.iter().chain(sc.b.iter()).filter_map(|x| if let Op::Watch(n) = x { Some(n.clone()) } else { None }).collect();
     if let Op::Watch(n) = &sc.a {
@@ -912,25 +1024,28 @@ fn hard_facts(sc: &Scenario, o: &Observed) -> Option<String> {
     None
 }
 
-fn push_interleaving(out: &mut Out, sc: &Scenario, k: usize, tag: &str) {
+fn push_interleaving(out: &mut Out, sc: &Scenario, k: usize, j: usize, tag: &str) {
     let ops_json = |v: &[Op]| Value::Array(v.iter().map(|o| o.json()).collect());
-    let input = json!({"scenario": tag, "prefix": ops_json(&sc.prefix), "a": sc.a.json(), "b": ops_json(&sc.b), "k": k});
-    let tag = match &sc.a {
+    let input = json!({"scenario": tag, "prefix": ops_json(&sc.prefix), "a": sc.a.json(), "b": ops_json(&sc.b), "k": k, "j": j});
+    let kind = format!("interleave.{}", match &sc.a {
         Op::Set(..) => "set",
+        Op::SetServing(_) => "set_serving",
+        Op::SetNotServing(_) => "set_not_serving",
         Op::Clear(_) => "clear",
         Op::Watch(_) => "watch",
         Op::Check(_) => "check",
         Op::Next(_) => "next",
-    };
-    let o = match run_interleaved(sc, k) {
+    });
+    let o = match run_interleaved(sc, k, j) {
         Ok(o) => o,
         Err(e) => {
-            out.push(Case { kind: format!("interleave.{}", tag), input, model: "Nn 1".into(), impl_obs: Tr::n(1u32), oracle: Some(e), nontrivial: false });
+            out.push(Case { kind, input, model: "Nn 1".into(), impl_obs: Tr::n(1u32), oracle: Some(e), nontrivial: false });
             return;
         }
     };
-    // A finished before B started: real-time order leaves only "A first"
-    let positions: Vec<usize> = if o.parked { (0..=sc.b.len()).collect() } else { vec![0] };
+    // real time: A precedes every operation of B that started after A had finished
+    let d = o.a_done_before.iter().position(|x| *x).unwrap_or(sc.b.len());
+    let positions: Vec<usize> = (0..=d).collect();
     let mut verdicts = vec![];
     let mut cands = vec![];
     let mut lin = false;
@@ -950,19 +1065,20 @@ fn push_interleaving(out: &mut Out, sc: &Scenario, k: usize, tag: &str) {
     if verdict.is_none() && !lin {
         verdict = Some(format!("not linearizable: no sequential order with A atomic explains the outcome ({})", verdicts.join("; ")));
     }
-    // canonical layout of the observation: main task in program order, then A
+    // canonical layout of the observation: prefix and B in program order, the closing polls, then A
     let mut obs: Vec<Tr> = o.main.iter().chain(o.settle.iter()).map(lin_tr).collect();
     obs.push(lin_tr(&o.a));
-    out.hist("interleave: A still unfinished when B ran", o.parked);
+    out.hist("interleave: operations of B started before A finished", d);
     out.hist("interleave: polls of A", o.a_polls.min(4));
+    out.hist("interleave: polls of B", o.b_polls.min(4));
     out.hist("interleave: candidate orders", positions.len());
     out.push(Case {
-        kind: format!("interleave.{}", tag),
+        kind,
         input,
         model: format!("obs_linearizable [{}] {}", cands.join(";"), Tr::L(obs).to_coq()),
         impl_obs: Tr::n(1u32),
         oracle: verdict,
-        nontrivial: o.parked,
+        nontrivial: o.a_polls > 1 || o.b_polls > 1,
     });
 }
 
@@ -972,10 +1088,16 @@ fn interleaving_scenarios() -> Vec<(String, Scenario)> {
     let prefixes: Vec<(&str, Vec<Op>)> = vec![
         ("fresh", vec![]),
         ("existing", vec![Set(a(), 1)]),
-        ("watched", vec![Set(a(), 1), Watch(a()), Next(0)]),
+        ("watched", vec![SetServing(0), Watch(a()), Next(0)]),
         ("just-cleared", vec![Set(a(), 1), Watch(a()), Clear(a())]),
     ];
-    let a_ops: Vec<(&str, Op)> = vec![("set", Set(a(), 2)), ("clear", Clear(a())), ("watch", Watch(a())), ("check", Check(a()))];
+    let a_ops: Vec<(&str, Op)> = vec![
+        ("set", Set(a(), 2)),
+        ("set_not_serving", SetNotServing(0)), // set_not_serving::<SvcA>(), NAME = "a"
+        ("clear", Clear(a())),
+        ("watch", Watch(a())),
+        ("check", Check(a())),
+    ];
     let mut v = vec![];
     for (pn, p) in &prefixes {
         let w = p.iter().filter(|o| matches!(o, Watch(_))).count(); // slot of B's first Watch
@@ -985,7 +1107,7 @@ fn interleaving_scenarios() -> Vec<(String, Scenario)> {
             ("watch-poll", vec![Watch(a()), Next(w)]),
             ("clear", vec![Clear(a())]),
             ("check", vec![Check(a())]),
-            ("clear-set", vec![Clear(a()), Set(a(), 0)]),
+            ("clear-set", vec![Clear(a()), SetServing(0)]),
             ("set-clear", vec![Set(a(), 0), Clear(a())]),
             ("watch-poll-set-poll", vec![Watch(a()), Next(w), Set(a(), 0), Next(w)]),
         ];
@@ -997,7 +1119,184 @@ fn interleaving_scenarios() -> Vec<(String, Scenario)> {
     }
     v
 }
-const MAX_BURN: usize = 130;
+/// (k, j): budget units burnt by A and by B before they start.  j = 0 leaves B unpreempted and
+/// sweeps every k; the sub-grid parks A at its first / second acquisition (k = 128 / 127 ...)
+/// and B after its first .. eighth budget unit (j = 127 .. 120).
+fn burn_grid(thorough: bool) -> Vec<(usize, usize)> {
+    // A parks inside its (129 - k)-th budget unit: k >= 112 reaches the first 17 acquisitions of
+    // A; smaller k only delay nothing (the thorough tier sweeps them all the same)
+    let mut g: Vec<(usize, usize)> = (0..=130).filter(|k| thorough || *k >= 112 || [0, 1, 2, 32, 64, 96].contains(k)).map(|k| (k, 0)).collect();
+    let ks: Vec<usize> = if thorough { vec![0, 64, 120, 121, 122, 123, 124, 125, 126, 127, 128, 129, 130] } else { vec![0, 125, 126, 127, 128, 129] };
+    let js: Vec<usize> = if thorough { (117..=129).collect() } else { (121..=128).collect() };
+    for k in &ks {
+        for j in &js {
+            g.push((*k, *j));
+        }
+    }
+    g
+}
+
+// ------------------------------------------------------------------ wake-ups
+// A stream that is AWAITED (not polled by hand): the awaiting task parks inside `next()` with its
+// waker registered in the watch channel; when another task sets or clears the service the
+// awaiting task must be woken within a bounded number of scheduler turns and see the status.
+// The run corresponds to the sequential history
+//   prefix ++ [Watch n]*W ++ [Next w]*W (first report) ++ [Next w]*W (pending: parked)
+//          ++ trigger ++ [Next w]*W (after the wake-up) ++ [Next w]*W (parked again, or the end)
+struct WakeScenario {
+    tag: &'static str,
+    prefix: Vec<Op>,
+    name: String,
+    watchers: usize,
+    trigger: Vec<Op>,
+}
+fn wake_history(sc: &WakeScenario) -> Vec<Op> {
+    let mut h = sc.prefix.clone();
+    for _ in 0..sc.watchers {
+        h.push(Op::Watch(sc.name.clone()));
+    }
+    for _ in 0..2 {
+        for w in 0..sc.watchers {
+            h.push(Op::Next(w));
+        }
+    }
+    h.extend(sc.trigger.iter().cloned());
+    for _ in 0..2 {
+        for w in 0..sc.watchers {
+            h.push(Op::Next(w));
+        }
+    }
+    h
+}
+fn run_wake(sc: &WakeScenario) -> Result<(Vec<Obs>, Option<String>), String> {
+    use std::sync::atomic::{AtomicUsize, Ordering::SeqCst};
+    use std::sync::{Arc, Mutex};
+    use tokio_stream::StreamExt;
+    let rt = turn_runtime()?;
+    rt.block_on(async {
+        let (mut reporter, server) = health_reporter();
+        let mut client = HealthClient::new(server.clone());
+        let mut slots = vec![];
+        let mut outs = vec![];
+        for op in &sc.prefix {
+            outs.push(main_op(&mut reporter, &mut client, &mut slots, op).await);
+        }
+        // subscribe in the main task (the history fixes the order), await in spawned tasks
+        let mut tasks = vec![];
+        for w in 0..sc.watchers {
+            match client.watch(req(&sc.name)).await {
+                Ok(r) => {
+                    outs.push(Obs::Watch(w));
+                    let mut st = r.into_inner();
+                    let got: Arc<Mutex<Vec<Obs>>> = Arc::new(Mutex::new(vec![]));
+                    let got2 = got.clone();
+                    let (fut, polls, _done) = counted(async move {
+                        for _ in 0..3 {
+                            let o = match st.next().await {
+                                Some(Ok(r)) => Obs::Item(r.status),
+                                Some(Err(e)) => Obs::Other(1000 + e.code() as i32 as u32),
+                                None => Obs::End,
+                            };
+                            got2.lock().unwrap().push(o);
+                        }
+                    });
+                    tasks.push((tokio::spawn(fut), polls, got));
+                }
+                Err(e) => return Err(format!("watch({:?}) failed: {}", sc.name, e)),
+            }
+        }
+        let total_polls = |t: &Vec<(tokio::task::JoinHandle<()>, Arc<AtomicUsize>, Arc<Mutex<Vec<Obs>>>)>| t.iter().map(|x| x.1.load(SeqCst)).sum::<usize>();
+        // let the awaiting tasks run until they are all parked (no poll during a whole round)
+        let quiesce = |_: ()| async {
+            for _ in 0..(20 * sc.watchers + 20) {
+                tokio::task::yield_now().await;
+            }
+        };
+        quiesce(()).await;
+        let before: Vec<Vec<Obs>> = tasks.iter().map(|t| t.2.lock().unwrap().clone()).collect();
+        let polls_before = total_polls(&tasks);
+        // first report, then parked = pending
+        for round in 0..2 {
+            for w in 0..sc.watchers {
+                outs.push(match (round, before[w].len()) {
+                    (0, n) if n >= 1 => before[w][0].clone(),
+                    (1, 1) => Obs::Pending, // suspended inside the second next().await
+                    (1, n) if n >= 2 => before[w][1].clone(),
+                    _ => Obs::Other(HANG),
+                });
+            }
+        }
+        for op in &sc.trigger {
+            outs.push(main_op(&mut reporter, &mut client, &mut slots, op).await);
+        }
+        // bounded number of scheduler turns for the wake-ups
+        quiesce(()).await;
+        let woken = total_polls(&tasks) > polls_before;
+        let after: Vec<Vec<Obs>> = tasks.iter().map(|t| t.2.lock().unwrap().clone()).collect();
+        for round in 0..2 {
+            for w in 0..sc.watchers {
+                let base = before[w].len().max(1); // index of the first result after the trigger
+                outs.push(match after[w].get(base + round) {
+                    Some(o) => o.clone(),
+                    None => Obs::Pending, // still (or again) suspended in next().await
+                });
+            }
+        }
+        for t in &tasks {
+            t.0.abort();
+        }
+        let touches = sc.trigger.iter().any(|o| matches!(o.spec(), Op::Set(n, _) | Op::Clear(n) if n == sc.name));
+        let note = if touches && !woken { Some(format!("the task awaiting the stream of {:?} was not polled again after {:?}", sc.name, sc.trigger)) } else { None };
+        Ok((outs, note))
+    })
+}
+fn wake_scenarios() -> Vec<WakeScenario> {
+    use Op::*;
+    let a = || "a".to_string();
+    let mut v = vec![];
+    for watchers in [1usize, 2] {
+        let mk = |tag, prefix: Vec<Op>, name: &str, trigger: Vec<Op>| WakeScenario { tag, prefix, name: name.to_string(), watchers, trigger };
+        v.push(mk("set", vec![Set(a(), 1)], "a", vec![Set(a(), 2)]));
+        v.push(mk("set-same-value", vec![Set(a(), 1)], "a", vec![Set(a(), 1)]));
+        v.push(mk("set-typed", vec![Set(a(), 1)], "a", vec![SetNotServing(0)]));
+        v.push(mk("set-twice-coalesced", vec![Set(a(), 1)], "a", vec![Set(a(), 2), Set(a(), 0)]));
+        v.push(mk("clear", vec![Set(a(), 1)], "a", vec![Clear(a())]));
+        v.push(mk("set-then-clear", vec![Set(a(), 1)], "a", vec![Set(a(), 2), Clear(a())]));
+        v.push(mk("clear-reregister", vec![Set(a(), 1)], "a", vec![Clear(a()), Set(a(), 2)]));
+        v.push(mk("default-name", vec![], "", vec![Set(String::new(), 2)]));
+        v.push(mk("other-name-no-wake", vec![Set(a(), 1)], "a", vec![Set("A".to_string(), 2), SetServing(1), Clear("b".to_string())]));
+        v.push(mk("check-no-wake", vec![Set(a(), 1)], "a", vec![Check(a()), Watch(a())]));
+    }
+    v
+}
+fn push_wake(out: &mut Out, sc: &WakeScenario) {
+    let hist = wake_history(sc);
+    let input = json!({"scenario": sc.tag, "watchers": sc.watchers, "ops": hist.iter().map(|o| o.json()).collect::<Vec<_>>()});
+    let (outs, verdict) = match run_wake(sc) {
+        Ok((mut outs, note)) => {
+            // a Watch inside the trigger opens a stream after the awaited ones
+            let mut next_w = sc.watchers;
+            for (op, o) in hist.iter().zip(outs.iter_mut()).skip(sc.prefix.len() + sc.watchers) {
+                if let (Op::Watch(_), Obs::Watch(_)) = (op, &o) {
+                    *o = Obs::Watch(next_w);
+                    next_w += 1;
+                }
+            }
+            let v = note.or_else(|| oracle(&hist, &outs));
+            (outs, v)
+        }
+        Err(e) => (vec![], Some(e)),
+    };
+    out.hist("wake: awaiting tasks", sc.watchers);
+    out.push(Case {
+        kind: "wake".into(),
+        input,
+        model: format!("obs_history {}", coq_list(&hist, |o| format!("({})", o.coq()))),
+        impl_obs: Tr::L(outs.iter().map(|o| o.tr()).collect()),
+        oracle: verdict,
+        nontrivial: true,
+    });
+}
 
 fn main() {
     let a = args();
@@ -1011,7 +1310,13 @@ fn main() {
         let list = |v: &Value| -> Vec<Op> { v.as_array().map(|x| x.iter().map(Op::from_json).collect()).unwrap_or_default() };
         if kind.starts_with("interleave") {
             let sc = Scenario { prefix: list(&c["input"]["prefix"]), a: Op::from_json(&c["input"]["a"]), b: list(&c["input"]["b"]) };
-            push_interleaving(&mut out, &sc, c["input"]["k"].as_u64().unwrap_or(0) as usize, c["input"]["scenario"].as_str().unwrap_or("replay"));
+            push_interleaving(&mut out, &sc, c["input"]["k"].as_u64().unwrap_or(0) as usize, c["input"]["j"].as_u64().unwrap_or(0) as usize, c["input"]["scenario"].as_str().unwrap_or("replay"));
+        } else if kind == "wake" {
+            let tag = c["input"]["scenario"].as_str().unwrap_or("");
+            let n = c["input"]["watchers"].as_u64().unwrap_or(1) as usize;
+            for sc in wake_scenarios().iter().filter(|s| s.tag == tag && s.watchers == n) {
+                push_wake(&mut out, sc);
+            }
         } else {
             let ops = list(&c["input"]["ops"]);
             let settled = c["input"]["settled"].as_bool().unwrap_or(false);
@@ -1028,23 +1333,36 @@ fn main() {
         push_case(&mut out, k, s, true);
     }
 
-    // deterministic interleavings: a task switch at every cooperative yield point of A
+    // deterministic interleavings: task switches at the cooperative yield points of A and of B
+    let grid = burn_grid(a.thorough);
     for (tag, sc) in interleaving_scenarios() {
-        for k in 0..=MAX_BURN {
-            push_interleaving(&mut out, &sc, k, &tag);
+        for (k, j) in &grid {
+            push_interleaving(&mut out, &sc, *k, *j, &tag);
         }
     }
+    // awaited streams are woken by set / clear
+    for sc in wake_scenarios() {
+        push_wake(&mut out, &sc);
+    }
+    // supporting evidence only: concurrent writers / watchers / checkers, multi-thread runtime
+    for round in 0..(if a.thorough { 8u64 } else { 2 }) {
+        let res = stress(a.seed, round);
+        out.hist("stress rounds", if res.is_ok() { "ok" } else { "failed" });
+        out.push(Case {
+            kind: "stress".into(),
+            input: json!({"round": round, "seed": a.seed, "writers": 4, "sets per writer": 400, "watchers": 12, "checkers": 2, "result": res.clone().unwrap_or(json!(null))}),
+            model: "Nn 1".into(),
+            impl_obs: Tr::n(1u32),
+            oracle: res.err(),
+            nontrivial: false,
+        });
+    }
 
-    let names3: &[&str] = &["", "a", "b"];
-    let names2: &[&str] = &["", "a"];
-    let names1: &[&str] = &["a"];
+    let clusters = name_clusters();
     let n_rand = if a.thorough { 12000 } else { 1500 } * a.scale;
     for i in 0..n_rand {
-        let names = match i % 5 {
-            0 => names1,
-            1 | 2 => names2,
-            _ => names3,
-        };
+        // the first three (plain) groups half of the time, the confusable ones otherwise
+        let names = if i % 2 == 0 { &clusters[(i / 2 % 3) as usize] } else { &clusters[3 + (i / 2) as usize % (clusters.len() - 3)] };
         let len = match r.below(10) {
             0 => r.range(0, 4),
             1..=6 => r.range(5, 14),
@@ -1061,7 +1379,7 @@ fn main() {
     let mut exhaustive = json!(null);
     if a.thorough {
         // exhaustive small scope: one name, all three statuses, two streams, every history of
-        // length <= 5; two names with two statuses, one stream each, length <= 4
+        // length <= 5; two names with two statuses, two streams, length <= 4
         let mut count = 0u64;
         let alpha1 = all_ops(&["a"], &[0, 1, 2], 2);
         for len in 0..=5 {
@@ -1073,7 +1391,7 @@ fn main() {
             });
         }
         let c1 = count;
-        let alpha2 = all_ops(&["", "a"], &[1, 2], 2);
+        let alpha2 = all_ops_typed(&["", "a"], &[1, 2], 2, true);
         for len in 0..=4 {
             enumerate(&alpha2, len, &mut |h| {
                 count += 1;
@@ -1083,8 +1401,8 @@ fn main() {
             });
         }
         let c2 = count;
-        // length 6 over {set a 1, set a 2, clear a, watch a, next 0} (shorter ones are covered above)
-        let alpha3: Vec<Op> = all_ops(&["a"], &[1, 2], 1).into_iter().filter(|o| !matches!(o, Op::Check(_))).collect();
+        // length 6 over {set_serving::<SvcA>, set_not_serving::<SvcA>, clear a, watch a, next 0}
+        let alpha3: Vec<Op> = all_ops_typed(&["a"], &[1, 2], 1, true).into_iter().filter(|o| !matches!(o, Op::Check(_))).collect();
         enumerate(&alpha3, 6, &mut |h| {
             count += 1;
             let mut ops = h.to_vec();
@@ -1092,27 +1410,13 @@ fn main() {
             push_case(&mut out, "exhaustive.length-6", ops, true);
         });
         exhaustive = json!({"one name x 3 statuses x 2 streams, every history of length <= 5": c1,
-                            "two names ('' and a) x 2 statuses x 2 streams, every history of length <= 4": c2 - c1,
-                            "one name x 2 statuses, polls of the first stream only, no check, every history of length 6": count - c2});
-
-        // supporting evidence only: concurrent writers / watchers / checkers, multi-thread runtime
-        for round in 0..8u64 {
-            let res = stress(a.seed, round);
-            out.hist("stress rounds", if res.is_ok() { "ok" } else { "failed" });
-            out.push(Case {
-                kind: "stress".into(),
-                input: json!({"round": round, "seed": a.seed, "writers": 4, "sets per writer": 400, "watchers": 12, "checkers": 2, "result": res.clone().unwrap_or(json!(null))}),
-                model: "Nn 1".into(),
-                impl_obs: Tr::n(1u32),
-                oracle: res.err(),
-                nontrivial: false,
-            });
-        }
+                            "two names ('' by set_service_status, a by set_serving/set_not_serving::<SvcA>) x 2 statuses x 2 streams, every history of length <= 4": c2 - c1,
+                            "one name set through set_serving/set_not_serving::<SvcA>, polls of the first stream only, no check, every history of length 6": count - c2});
     }
 
     out.finish(
         IMPORTS,
-        "interleave.*: operation A runs in a spawned task of a current-thread tokio runtime after burning k = 0..=130 units of the cooperative budget (so that it is switched out at each of its lock acquisitions in turn) while the main task runs the sequence B; the outcome must equal the model's outcome for one of the sequential histories with A atomic (obs_linearizable), the oracle checks the same against the plain-map replay plus the schedule-independent safety facts | each history over {set,clear,check,watch,next} is executed on the real health_reporter()/HealthServer pair through the generated HealthClient (in-process, Next = one poll of the response stream) and its list of outputs is compared with obs_history of the model; the oracle replays the history against a plain map and per-stream status lists",
+        "interleave.*: operation A and the sequence B run in two spawned tasks of a current-thread tokio runtime (event_interval 1) after burning k resp. j units of the cooperative budget, so that each is switched out at its lock acquisitions / stream polls in turn and A resumes between the operations of B; the outcome must equal the model's outcome for one of the sequential histories with A atomic that real time allows (obs_linearizable), the oracle checks the same against the plain-map replay plus the schedule-independent safety facts | wake: tasks AWAIT their streams, another task sets / clears, the awaiting tasks must be polled again within a bounded number of scheduler turns; outputs compared with obs_history of the corresponding sequential history | stress: multi-thread runtime, safety and convergence only | every other kind: a history over {set_service_status, set_serving::<S>, set_not_serving::<S>, clear, check, watch, next} is executed on the real health_reporter()/HealthServer pair through the generated HealthClient (in-process, Next = one poll of the response stream) and its list of outputs is compared with obs_history of the model; the oracle replays the history against a plain map and per-stream status lists",
         json!({"exhaustive": exhaustive}),
     );
 }
